@@ -5,6 +5,7 @@ import (
 	"context"
 	"fmt"
 	"os"
+	"sort"
 	"strings"
 	"testing"
 
@@ -42,10 +43,81 @@ var prop = vlib.Prop[*vlib.HistCase]{
 	Rule: "case = history of 1..8 multi-intent transactions (4 owners; create, replace, shrink, re-prioritise, delete) over plain (1..3-key lists in both key orders, presence containers, leaf-lists, defaults, two namespaces), a top-level choice and typed leaves; at every device Set the same tree instance is rendered as proto updates / deletes, JSON, JSON_IETF and XML for onlyNewOrUpdated in {true,false} x the 8 namespace / operation option combinations; " +
 		"oracle = (1) semantic agreement: every rendering of the change is applied to a copy of the same device configuration under its own protocol semantics (gNMI delete-then-update; RFC 6241 merge / replace / delete / remove) and all results must be equal; the full renderings must decode to the same leaf set; (2) XML claims: with honorNamespace every element resolves to its schema node's namespace, every list entry starts with all its keys in key-statement order with the entry's values, no element without a name, deletions carry delete or remove as configured, with the nc: prefix and xmlns:nc iff operationWithNamespace; " +
 		"non-trivial = a change with >= 1 delete and >= 1 update; distinct = distinct case JSON",
-	Gen: func(t *rapid.T) *vlib.HistCase {
-		return vlib.GenHistCase(t, vlib.HistGenOpts{Universe: uni, MinSteps: 1, MaxSteps: 8, WithInit: true, AllowOrphan: false, Forms: []string{"typed", "string"}})
-	},
+	Gen: gen,
 	Exec: Exec,
+}
+
+func tmplIndex(path string) int {
+	for i, p := range tmplPaths {
+		if p == path {
+			return i
+		}
+	}
+	panic("no template " + path)
+}
+
+// choice groups of the universe: the members of one case, a member of another case of the same choice
+var choiceSwitches = [][2][]string{
+	{{"chc/cb", "chc/cbc/x"}, {"chc/ca"}},
+	{{"chc/nest/oi/nb", "chc/nest/oi/nb2"}, {"chc/nest/oi/na"}},
+	{{"chc/nest/oi/na", "chc/nest/oi/nb"}, {"chc/nest/oc"}},
+	{{"chc/ca"}, {"chc/cl"}},
+}
+
+func gen(t *rapid.T) *vlib.HistCase {
+	c := vlib.GenHistCase(t, vlib.HistGenOpts{Universe: uni, MinSteps: 1, MaxSteps: 8, WithInit: true, AllowOrphan: false, Forms: []string{"typed", "string"}})
+	// now and then the device loses configuration behind the server's back before a step (and the sync notices)
+	for i := 1; i < len(c.Steps); i++ {
+		if rapid.IntRange(0, 3).Draw(t, "drift") == 0 {
+			c.Steps[i].Drift = rapid.SliceOfN(rapid.IntRange(-1, 20), 1, 3).Draw(t, "drift-paths")
+		}
+	}
+	if rapid.IntRange(0, 7).Draw(t, "case-switch-scenario") == 0 {
+		// one owner holds the members of a case, the device loses them (or not), another owner makes another case win
+		sw := rapid.SampledFrom(choiceSwitches).Draw(t, "switch")
+		first, second := sw[0], sw[1]
+		if rapid.Bool().Draw(t, "switch-reverse") {
+			first, second = second, first
+		}
+		owners := rapid.Permutation([]int{0, 1, 2, 3}).Draw(t, "switch-owners")
+		prios := rapid.Permutation([]int{0, 1, 2, 3, 4}).Draw(t, "switch-prios")
+		mk := func(o, prio int, paths []string) vlib.IntentOp {
+			op := vlib.IntentOp{Owner: o, Kind: "set", PrioIx: prio, Form: "typed"}
+			for _, p := range paths {
+				op.Leaves = append(op.Leaves, vlib.LeafSel{T: tmplIndex(p), V: rapid.IntRange(0, 2).Draw(t, "switch-v")})
+			}
+			return op
+		}
+		s1 := vlib.Step{Intents: []vlib.IntentOp{mk(owners[0], prios[0], first)}}
+		s2 := vlib.Step{Intents: []vlib.IntentOp{mk(owners[1], prios[1], second)}}
+		if rapid.Bool().Draw(t, "switch-drift") {
+			s2.Drift = []int{-1}
+		}
+		tail := c.Steps
+		if len(tail) > 3 {
+			tail = tail[:3]
+		}
+		c.Initial = nil
+		c.Steps = append([]vlib.Step{s1, s2}, tail...)
+	}
+	return c
+}
+
+// minimal returns the paths of ds that have no proper ancestor (or duplicate) in ds: the set of subtrees ds denotes.
+func minimal(ds []vlib.IPath) map[string]bool {
+	r := map[string]bool{}
+	for i, d := range ds {
+		covered := false
+		for j, o := range ds {
+			if i != j && o.Covers(d) && o.Canon() != d.Canon() {
+				covered = true
+			}
+		}
+		if !covered {
+			r[d.Canon()] = true
+		}
+	}
+	return r
 }
 
 func normalise(c vlib.Conf) vlib.Conf { return vlib.NormPresence(c) }
@@ -110,6 +182,23 @@ func checkRenderings(base vlib.Conf, rec *vlib.SetRecord, r *vlib.Renderings, la
 		if len(ch.Replaces) > 0 {
 			lab["xml-replace-operation"] = true
 		}
+		// whatever the device happens to hold: every subtree the XML rendering deletes is deleted by the proto rendering
+		// too. (The converse does not hold on the unchanged tree and is not demanded: the XML rendering leaves out
+		// deletes of nodes that were never delivered - a NETCONF delete of a missing node is an error - the proto
+		// rendering sends them, a gNMI delete of a missing path is a no-op. Applied to the device both give the same.)
+		if len(ch.Replaces) == 0 {
+			for _, xd := range ch.Deletes {
+				covered := false
+				for _, pd := range rec.Deletes {
+					if pd.Covers(xd) {
+						covered = true
+					}
+				}
+				if !covered {
+					return vlib.Failf("C10:xml-deletes-more-than-proto", "the XML rendering (%s) deletes %s, no proto delete covers it: xml deletes %v, proto deletes %v\nxml: %s", o, xd.Canon(), setKeys(minimal(ch.Deletes)), setKeys(minimal(rec.Deletes)), raw)
+				}
+			}
+		}
 		got := normalise(applyXML(base, ch))
 		if d := got.Diff(want); len(d) > 0 {
 			sig := "C10:xml-disagrees-with-proto"
@@ -167,6 +256,15 @@ func checkRenderings(base vlib.Conf, rec *vlib.SetRecord, r *vlib.Renderings, la
 		}
 	}
 	return nil
+}
+
+func setKeys(m map[string]bool) []string {
+	var r []string
+	for k := range m {
+		r = append(r, k)
+	}
+	sort.Strings(r)
+	return r
 }
 
 func anClass(a string) string {
@@ -253,6 +351,9 @@ func Exec(c *vlib.HistCase) (nontrivial bool, labels []string, fail *vlib.Failur
 		f = checkRenderings(base, rec, r, lab)
 	}
 	for i, st := range c.Steps {
+		if gone := h.ApplyDrift(st); len(gone) > 0 {
+			lab["device-lost-configuration-before-step"] = true
+		}
 		res := h.RunStep(st)
 		if f != nil {
 			f.Detail = fmt.Sprintf("step %d: %s", i, f.Detail)
